@@ -30,6 +30,22 @@ CLAIMED["C17"] = ("property-based testing (Hypothesis): generated arrays with du
          "Exploration: arrays of numbers/strings/arrays of length 0-200 (dense around the 30/60 element thresholds) with identity and projecting key functions; results compared element for element, tags included; all overlap patterns of set pairs.",
          "Trusts CPython sorted()/min()/max() (stable, first extremum) and list/str/float ordering, which coincides with Jsonnet's order on homogeneous keys.",
          "DESIGN.md section 5 / C17")
+CLAIMED["C01"] = ("property-based testing and fuzzing: stdlib call matrix over boundary values (sampled + Cartesian product), random/mutated byte strings and generated programs under a step budget, hostile ext-var/TLA bindings, in-process and through the real binary; totality oracle",
+         "Exploration: the outcome of every generated input must be a JSON value or a structured lex/parse/analyze/eval error; panics, aborts, signals, exit statuses outside {0,1,2} and Rust panic text are violations. Right level: the property is totality over unbounded input domains.",
+         "In-process runs use rsjsonnet-lang with the verif-hooks step budget (hangs are decided by fuel, not wall clock); allocation-sizing arguments are capped at 1e5 (memory exhaustion is out of scope); the known parser stack overflow on deeply nested source (D9) is an open known finding with its own signature.",
+         "DESIGN.md section 5 / C01")
+CLAIMED["C08"] = ("property-based testing (Hypothesis): related value triples in varied spellings, every relation evaluated separately and compared with a reference implementation of JSON equality and the specified order",
+         "Exploration: generated pairs/triples with frequent coincidences (equal-but-differently-built, prefixes, astral strings, hidden fields, lazily failing tails); ==, !=, std.equals, <, <=, >, >=, std.__compare(_array) in both argument orders must match the reference; values without an order must be errors.",
+         "Trusts the reference order/equality in pbt/props/c08.py (numbers, strings by code point via Python str comparison, arrays lexicographic) which is a total order by construction, hence transitivity/trichotomy follow from agreement.",
+         "DESIGN.md section 5 / C08")
+CLAIMED["C14"] = ("property-based testing (Hypothesis) + exhaustive enumeration: tiling invariants on arbitrary/mutated bytes, differential against a reference lexer written from the specification, intended-token spellings, every Unicode scalar and invalid UTF-8 prefix in literal bodies",
+         "Exploration (with exhaustive sub-enumerations in the thorough tier): token spans must tile the input, filtering whitespace must not change other tokens, kinds/payloads/spans must equal the reference lexer's, literal payloads must equal the intended value, invalid UTF-8 in bodies must equal lossy decoding.",
+         "Trusts the reference lexer pbt/ref/lexer.py (written from the Jsonnet lexical grammar), CPython's UTF-8 codec with errors='replace', exact rational arithmetic for number tokens.",
+         "DESIGN.md section 5 / C14")
+CLAIMED["C15"] = ("property-based testing (Hypothesis): generated syntax trees printed with varied parenthesisation/spacing and re-parsed (round trip incl. byte spans), operator trees vs fully parenthesised forms, token-level mutations for error locations",
+         "Exploration: every node kind incl. all slice layouts; the re-parsed tree must equal the printed tree node for node with spans = first..last token; minimal and fully parenthesised prints must group identically (precedence table, left associativity); a ParseError must name a token of the input.",
+         "Trusts the printer pbt/gen/printer.py (precedence table from the specification; it records the byte range of every node) and the reference lexer used to place mandatory spaces.",
+         "DESIGN.md section 5 / C15")
 NOT_YET = {}
 
 def main():
